@@ -10,12 +10,15 @@ CHECKS = {
     "C01": dict(
         category="model_checking",
         text="TLC enumerates the adversary's operator sequences over sealed messages (sys/AeadChannel, ideal MAC, exhaustive to depth 2, "
-             "simulated deeper); each sequence is replayed on the real GCM/CCM/EAX/SIV/OCB/ChaCha20-Poly1305/KW/KWP objects and the "
+             "simulated deeper; operators: flip, truncate, extend, prepend, empty, splice, reorder, boundary shift, other key, other tag length, and Craft - a "
+             "key-holding peer that wraps non-conforming inner blocks for KW/KWP); each sequence is replayed on the real GCM/CCM/EAX/SIV/OCB/ChaCha20-Poly1305/KW/KWP objects and the "
              "receiver's outcome is judged by TLC against the verdict computed from the transcribed standards (spec/data/AesAead, "
              "ChaChaPoly): accept iff the offered tag is the defined one at the configured length, plaintext as defined, ValueError otherwise.",
         design_ref="DESIGN.md section 6, C01",
         note="Trusted: the TLA+ transcriptions of FIPS 197, SP 800-38B/C/D/F, RFC 5297, RFC 7253, RFC 8439 (pinned by the standards' "
-             "vectors as ASSUMEs, checked at setup and on every run of the trace spec); TLC. Inputs explored are mutations of sealed messages, not arbitrary forgeries.",
+             "vectors as ASSUMEs, checked at setup and on every run of the trace spec); TLC. Inputs explored are mutations of sealed messages (and crafted wraps), not "
+             "arbitrary forgeries. Receiver APIs: decrypt_and_verify, decrypt+verify, hexverify, a second verify on the same object, output=, aliased output, "
+             "pieces with empty pieces, update+verify without any decrypt() call; senders also update+digest without any encrypt() call.",
         technique="TLA+ system model (adversary operator algebra) checked by TLC; spec->code replay; code->spec trace validation with the standards transcribed in TLA+ as oracle",
     ),
     "C10": dict(
